@@ -230,7 +230,10 @@ def run_history(ctx, spec):
             ctx.count("busy_frames_while_interface_down_not_received")
             return
         busy_log.append((loop.time(), wait, len(loop.wire)))
-        deliver(KNXIPFrame.init_from_body(RoutingBusy(wait_time=wait)).to_knx())
+        # device state and control field vary: the pause rule of the statement does not depend on them
+        control = rng.choice((0, 0, 1, 0xFFFF, rng.randrange(65536)))
+        ctx.count("busy_frames_control_field_" + ("zero" if control == 0 else "nonzero"))
+        deliver(KNXIPFrame.init_from_body(RoutingBusy(device_state=rng.choice((0, 0, 1, 3)), wait_time=wait, control_field=control)).to_knx())
         kinds.append(f"B{wait}")
 
     async def sender(routing, plan, name):
@@ -447,7 +450,7 @@ def run(ctx):
         "and in the slow-down phase) x scripted random extension; io-gap: second busy frame queued in the I/O phase of iteration k+j after the pause end; "
         "distinct = (mode, number of sends, busy waits in arrival order, first send instants in ms)"
     )
-    ctx.require("restarts_of_the_same_routing_object", "histories_sequential", "histories_io-gap", "histories_concurrent", "concurrent_spacing_ok", "busy_frames", "routing_indications", "confirmations", "spacing_ok",
+    ctx.require("busy_frames_control_field_zero", "busy_frames_control_field_nonzero", "restarts_of_the_same_routing_object", "histories_sequential", "histories_io-gap", "histories_concurrent", "concurrent_spacing_ok", "busy_frames", "routing_indications", "confirmations", "spacing_ok",
                 "sent_outside_every_announced_wait", "random_extension_draws", "shadow_agreements")
     n = ctx.scale(1500, 400000)
     for i in range(n):
